@@ -404,7 +404,12 @@ class OrderingList(List[_T]):
             for i in range(start, stop, step):
                 self.__setitem__(i, entities[i])
         else:
-            self._order_entity(int(index), entity, True)  # type: ignore[arg-type] # noqa: E501
+            position = int(index)
+            if position < 0:
+                # a negative index addresses an element from the end;
+                # the ordering value is derived from the actual position
+                position += len(self)
+            self._order_entity(position, entity, True)  # type: ignore[arg-type] # noqa: E501
             super().__setitem__(index, entity)  # type: ignore[assignment]
 
     def __delitem__(self, index: Union[SupportsIndex, slice]) -> None:
